@@ -233,3 +233,58 @@ def _big_sweep(self, tier, seed):
 
 
 Statistics.bounded_checks = _big_sweep
+
+
+def _zero_weight_points(self, tier, seed):
+    """B: data points whose weight is exactly zero are data points: number_of_residuals counts every point once, and the
+    degrees of freedom, reduced chi-square and RMSE follow from it (native optimize on a builtin decay model, part of the
+    dataset weighted to zero through the dataset weight or a model weight)."""
+    import warnings
+
+    import numpy as np
+    import xarray as xr
+
+    from glotaran.builtin.megacomplexes.decay import DecayParallelMegacomplex
+    from glotaran.model import Model
+    from glotaran.optimization.optimize import optimize
+    from glotaran.parameter import Parameters
+    from glotaran.project import Scheme
+
+    rng = np.random.default_rng(seed)
+    time, pixel = np.arange(0.0, 10.0, 0.5), np.arange(4.0)
+    out = []
+    for how in ("dataset_weight", "model_weight"):
+        name = "bounded_zero_weighted_points_are_counted_as_data_points"
+        try:
+            spec = {"megacomplex": {"m": {"type": "decay-parallel", "compartments": ["s1", "s2"], "rates": ["k.1", "k.2"]}}, "dataset": {"d": {"megacomplex": ["m"]}}}
+            if how == "model_weight":
+                spec["weights"] = [{"datasets": ["d"], "model_interval": [0.0, 1.0], "value": 0.0}]
+            model = Model.create_class_from_megacomplexes([DecayParallelMegacomplex])(**spec)
+            data = xr.DataArray(rng.normal(size=(len(time), len(pixel))) + 3.0, coords=[("time", time), ("pixel", pixel)]).to_dataset(name="data")
+            if how == "dataset_weight":
+                w = np.ones((len(time), len(pixel)))
+                w[:3, :] = 0.0
+                w[5, 1] = 0.5
+                data["weight"] = (("time", "pixel"), w)
+            scheme = Scheme(model=model, parameters=Parameters.from_dict({"k": [0.6, 0.15]}), data={"d": data}, add_svd=False, maximum_number_function_evaluations=3)
+            with warnings.catch_warnings(), np.errstate(all="ignore"):
+                warnings.simplefilter("ignore")
+                r = optimize(scheme, verbose=False, raise_exception=True)
+            n_data, n_clps, n_free = len(time) * len(pixel), 2 * len(pixel), 2
+            dof = n_data - n_free - n_clps
+            ok = r.number_of_residuals == n_data and r.number_of_clps == n_clps and r.degrees_of_freedom == dof and abs(r.reduced_chi_square * dof - r.chi_square) <= 1e-9 * max(1.0, r.chi_square) and abs(r.root_mean_square_error**2 - r.reduced_chi_square) <= 1e-9 * max(1.0, r.reduced_chi_square) and r.jacobian.shape[0] == n_data
+            wit = None if ok else {"weights_through": how, "number_of_residuals": int(r.number_of_residuals), "data_points": n_data, "degrees_of_freedom": int(r.degrees_of_freedom), "expected_degrees_of_freedom": dof, "jacobian_rows": int(r.jacobian.shape[0])}
+        except Exception as e:
+            ok, wit = False, {"weights_through": how, "exception": repr(e)}
+        out.append({"name": name, "ok": ok, "case": how, "function": "glotaran.optimization.optimizer:Optimizer.create_result", "witness": wit, "detail": "native optimize() with exact-zero weights on part of the data (bounded stand-in)"})
+    return out
+
+
+_prev_statistics_bounded = Statistics.bounded_checks
+
+
+def _statistics_bounded(self, tier, seed):
+    return list(_prev_statistics_bounded(self, tier, seed)) + _zero_weight_points(self, tier, seed)
+
+
+Statistics.bounded_checks = _statistics_bounded
